@@ -725,9 +725,9 @@ def run_propagate(case):
 # --------------------------------------------------------------------------
 
 CLAUSES = [
-    Clause("pipeline", assign_case(), run_pipeline, quick=800, thorough=8000, exhaustive=exhaustive_configs,
+    Clause("pipeline", assign_case(), run_pipeline, quick=640, thorough=8000, exhaustive=exhaustive_configs,
            doc="MSM(**cfg).fit(a) == builder(trim?(assigns_to_counts(a, lag, sliding, max_n_states)))"),
-    Clause("roundtrip", assign_case(), run_roundtrip, quick=400, thorough=4000,
+    Clause("roundtrip", assign_case(), run_roundtrip, quick=320, thorough=4000,
            doc="MSM.load(m.save(dir)) equals m (config, mapping, counts, T, populations, ==)"),
     Clause("pipeline_large", assign_case(max_core=12, max_lag=8), run_pipeline, quick=0, thorough=2400,
            doc="same as pipeline, up to 12 core + 3 non-core states, lag up to 8 (thorough only)"),
@@ -740,7 +740,7 @@ CLAUSES = [
            doc="eigenspectrum: real, descending, leading 1, stationary left vector, eigen-equation"),
     Clause("spectrum_medium", spectral_case(seeded=True), run_spectrum, quick=80, thorough=1600,
            doc="same, 10..40 states from a seed"),
-    Clause("spectrum_arpack", big_case(), run_spectrum, quick=20, thorough=160,
+    Clause("spectrum_arpack", big_case(), run_spectrum, quick=12, thorough=160,
            doc="same, >= 1000-state sparse chains (ARPACK branch)"),
     Clause("propagate", propagate_case(), run_propagate, quick=320, thorough=4000,
            doc="synthetic_ensemble(T, p0, n) rows == p0 T^k"),
